@@ -239,6 +239,7 @@ def compare_multi(spec):
         if now != rt.decl0:
             res.add("template", "changed", "before %s after %s" % (rt.decl0, now))
     res.nlp = nlp
+    res.m = m
     res.rows_real = rows_real
     res.f_real = f_real
     return res
